@@ -212,6 +212,13 @@ def check(run):
             hps = [int(rng.choice([0, 1, 2, 3, 3, 4, 9])) for _ in range(nslab)] if k % 4 == 2 else None
             if hps:
                 hps[int(rng.integers(0, nslab))] = 3
+            equal = k % 8 == 6
+            if equal:
+                # catalogues of several files that all hold the same number of halos (nothing per-file may survive into the next file
+                # just because the shapes agree)
+                nslab = max(nslab, 2) + k % 2
+                hps = [int(rng.choice([3, 6, 11]))] * nslab
+                run.count('catalogues_of_equal_sized_files')
             # every other box-layout catalogue is written at the very same path as the one before it (removed in between): nothing
             # learnt about a path may outlive the files
             reuse = os.path.join(tempfile.gettempdir(), f'verif_c05_samepath_{os.getpid()}') if k % 2 == 0 else None
@@ -246,6 +253,18 @@ def check(run):
                         run.violation('units-load-fails', dict(error=f'{type(e1 or e2).__name__}: {e1 or e2}'[:200], fields=list(shared), **{k2: v for k2, v in desc.items() if k2 != 'fields'}))
                     else:
                         check_catalog_pair(run, T, slabs, cleaned, o1, o0, dict(desc, fields='one list object for both loads'), lc=lc)
+                if not lc and len(slabs) >= 2:
+                    # the files named one by one, last superslab first: each file's rows (also those that come from its cleaning file) follow the list
+                    rev = list(slabs)[::-1]
+                    flist = [os.path.join(T['path'], 'halo_info', f'halo_info_{s_:03d}.asdf') for s_ in rev]
+                    o1, e1 = catoracle.load(flist, convert_units=True, cleaned=cleaned, fields='all')
+                    o0, e2 = catoracle.load(list(flist), convert_units=False, cleaned=cleaned, fields='all')
+                    run.ev(2)
+                    run.count('descending_file_list_loads', 2)
+                    if e1 or e2:
+                        run.violation('units-load-fails', dict(error=f'{type(e1 or e2).__name__}: {e1 or e2}'[:200], files='explicit list, descending superslab order', **desc))
+                    else:
+                        check_catalog_pair(run, T, rev, cleaned, o1, o0, dict(desc, files='explicit list, descending superslab order'), lc=lc)
                 if k < 2:
                     run.sample(dict(desc, BoxSize=box, VelZSpace_to_kms=velz, columns=len(on.halos.colnames), rows=len(on.halos)))
                 # single-column loads of the ratio / derived columns
